@@ -17,7 +17,7 @@ BIN = os.path.join(TARGET, 'debug', 'reval-replay')
 
 # which pools can witness which property
 FAMILIES = {
-    'C01': ['ops', 'compose', 'text'], 'C02': ['ops', 'compose', 'lazy', 'text'], 'C03': ['ops', 'compose', 'text'], 'C04': ['ops', 'compose', 'text'],
+    'C01': ['ops', 'compose', 'text', 'ruleset', 'lazy'], 'C02': ['ops', 'compose', 'lazy', 'text'], 'C03': ['ops', 'compose', 'text'], 'C04': ['ops', 'compose', 'text'],
     'C05': ['lazy', 'text'], 'C09': ['ruleset'], 'C10': ['ops', 'ruleset', 'builder', 'text'], 'C11': ['ruleset', 'lazy'],
     'C15': ['builder'], 'C17': ['convert'], 'C13': ['ser'], 'C06': ['parse'],
 }
